@@ -396,7 +396,7 @@ VARIANTS += [
 ]
 
 # ---------------------------------------------------------------------- round 4
-_AIS_LINK_OLD = """            if val["type"] == AssetType.LINK:
+_AIS_LINK_OLD = """            if val.get("type") == AssetType.LINK and "asset_id" in val:
                 # For link items, there is no asset, only a linked ID.
                 val["linked_id"] = val.pop("asset_id")
                 # These don't exist either
@@ -411,12 +411,13 @@ VARIANTS += [
      "old": '                val.pop("sale_info", None)\n        return val\n',
      "new": '                val.pop("sale_info", None)\n                val.pop("desc", None)\n        return val\n'},
     {"name": "R10 elision extended to a further asset type", "file": INV, "expect": "C20.R10",
-     "old": '            if val["type"] == AssetType.LINK:\n', "new": '            if val["type"] in {AssetType.LINK, AssetType.LANDMARK}:\n'},
+     "old": '            if val.get("type") == AssetType.LINK and "asset_id" in val:\n',
+     "new": '            if val.get("type") in {AssetType.LINK, AssetType.LANDMARK} and "asset_id" in val:\n'},
     {"name": "R10 reader no longer maps the re-keyed id back", "file": INV, "expect": "C20.R10",
      "old": '            inv_dict["asset_id"] = inv_dict.pop("linked_id")\n', "new": '            inv_dict.pop("linked_id")\n'},
     {"name": "P R10 link shaping behind a guard clause", "file": INV, "expect": "silent",
      "old": _AIS_LINK_OLD,
-     "new": """            if val["type"] != AssetType.LINK:
+     "new": """            if val.get("type") != AssetType.LINK or "asset_id" not in val:
                 return val
             # For link items, there is no asset, only a linked ID.
             linked = val.pop("asset_id")
